@@ -40,19 +40,23 @@ class VLoop(asyncio.SelectorEventLoop):
     def _due(self) -> bool:
         return any((not h._cancelled) and h._when <= self._vtime for h in self._scheduled)
 
-    def settle(self, limit: int = 200000) -> int:
+    def settle(self, limit: int = 50000) -> int:
         n = 0
         while self._ready or self._due():
             self._run_once()
             n += 1
             if n > limit:
-                raise RuntimeError("event loop does not become quiescent (spinning)")
+                raise SpinError("event loop does not become quiescent (spinning)")
         self.iterations += n
         return n
 
     def next_deadline(self) -> Optional[float]:
         whens = [h._when for h in self._scheduled if not h._cancelled]
         return min(whens) if whens else None
+
+
+class SpinError(RuntimeError):
+    pass
 
 
 class FakeSocket:
@@ -418,6 +422,10 @@ class AioEnv:
             self.run_steps(self.sess.steps())
             self.run_steps(self.sess.finish_steps())
             self.sess.trace.sealed = True
+        except SpinError:
+            # the server never became quiescent: recorded as an observation, judged by the monitors
+            self.sess.trace.log("spin", now=ms(self.loop.time()))
+            self.sess.trace.sealed = True
         finally:
             self.cleanup()
 
@@ -431,7 +439,7 @@ class AioEnv:
             try:
                 loop.settle(limit=10000)
             except RuntimeError:
-                pass
+                loop._ready.clear()
             for t in leftovers:
                 if t.done() and not t.cancelled():
                     t.exception()
